@@ -92,13 +92,16 @@ SetToSeq3(S) == SelectSeq(<<"errtok", "unbalanced", "brackets">>, LAMBDA x : x \
 (*                  newline                                                  *)
 (*   esc-high       an escape character directly followed by a byte >= 0x80  *)
 (*   nul            the text has a NUL byte                                  *)
+(*   quit           a system-command line that begins with #quit             *)
 HighChars == {ChrTable[b] : b \in 128..255}
 Features(text) ==
   LET sl == IncludeAsRead(text)
   IN  (IF Len(sl) > 0 /\ sl[Len(sl)].sys /\ sl[Len(sl)].txt = <<"#">> THEN {"lone-hash-eof"} ELSE {})
       \cup (IF \E i \in 1..(Len(text) - 1) : text[i] = "_" /\ text[i + 1] \in HighChars THEN {"esc-high"} ELSE {})
       \cup (IF \E i \in 1..Len(text) : text[i] = NUL THEN {"nul"} ELSE {})
-FeatSeq(S) == SelectSeq(<<"lone-hash-eof", "esc-high", "nul">>, LAMBDA x : x \in S)
+      \cup (IF \E i \in 1..Len(sl) : sl[i].sys /\ Len(sl[i].txt) >= 5 /\ SubSeq(sl[i].txt, 1, 5) = <<"#", "q", "u", "i", "t">>
+            THEN {"quit"} ELSE {})
+FeatSeq(S) == SelectSeq(<<"lone-hash-eof", "esc-high", "nul", "quit">>, LAMBDA x : x \in S)
 
 \* what is exported for one text
 Judge(bytes) == LET text == Chars(bytes)
